@@ -69,12 +69,15 @@ MustRejectEntry(entry, f) ==
 AllocBound(len) == 512 * len + 65536
 \* o = [outcome |-> "ok"|"err"|"panic"|..., max_alloc |-> n, reser |-> "ok"|"err"|"none"|"panic"]
 \* returns 0 if legal, else the number of the violated clause
-OutcomeClause(entry, f, o) ==
+\* (len is passed separately: the trace omits the bytes of large inputs that no entry point accepted - only their
+\* length matters then)
+OutcomeClauseL(entry, f, len, o) ==
   IF o.outcome \notin {"ok", "err"} THEN 1                              \* panicked / aborted / did not terminate
-  ELSE IF o.max_alloc > AllocBound(Len(f)) THEN 2                         \* buffer sized by an unchecked field
+  ELSE IF o.max_alloc > AllocBound(len) THEN 2                            \* buffer sized by an unchecked field
   ELSE IF o.outcome = "ok" /\ o.reser \notin {"ok", "err", "none"} THEN 3 \* accepted input cannot be re-serialized without panicking
   ELSE IF o.outcome = "ok" /\ MustRejectEntry(entry, f) THEN 4            \* declares more than the buffer holds, yet accepted
   ELSE 0
+OutcomeClause(entry, f, o) == OutcomeClauseL(entry, f, Len(f), o)
 
 \* ------------------------------------------------------------------ (c) boundary mutations of a base image
 \* 32-bit boundary patterns as 4 bytes, most significant first
